@@ -248,6 +248,32 @@ def qOp (ns ds : String) (f : Int → Nat → String) : Option String := do
   let n ← parseInt ns; let d ← parseNat ds
   if d = 0 then pure (Dashu.Driver.panic "DivideByZero") else pure (f n d)
 
+/-- measurement aid (driver only, not a protocol op of the harness): which alignment branch of
+    `repr_add_large_small` and which re-alignment case of `repr_round_sum` an add/sub case reaches -/
+def addBranchTag (B : Nat) (p : Nat) (x y : FRepr) (rs : Int) : String :=
+  if x.isZero || y.isZero then "zero"
+  else if x.exp = y.exp then "equal-exp"
+  else
+    let (l, r, rs') := if x.exp > y.exp then (x, y, rs) else ((⟨rs * y.signif, y.exp⟩ : FRepr), x, (1 : Int))
+    let isSub := decide (sgn l.signif ≠ rs' * sgn r.signif)
+    let rndP := p + (if isSub then 1 else 0)
+    let ediff := (l.exp - r.exp).toNat
+    let ld := l.digits B
+    let rest := dubF32 B r.signif
+    let tag (name : String) (s : Int) (lowNZ : Bool) : String :=
+      let d := digitsI B s
+      name ++ (if isSub then "/sub" else "/add") ++
+        (if d = rndP then "/eq" else if d > rndP then "/shrink" else if lowNZ then "/pad" else "/short")
+    if p ≠ 0 ∧ rest + 1 < ediff ∧ rest + 1 + rndP < ld + ediff then tag "far" l.signif true
+    else if p ≠ 0 ∧ ld ≥ p then
+      let hl := splitDigits B r.signif ediff
+      tag "split-full" (l.signif + rs' * hl.1) (hl.2 != 0)
+    else if p ≠ 0 ∧ ediff + ld > p then
+      let lshift := p - ld
+      let hl := splitDigits B r.signif (ediff - lshift)
+      tag "split-pad" (l.signif * ((B ^ lshift : Nat) : Int) + rs' * hl.1) (hl.2 != 0)
+    else tag "aligned" (l.signif * ((B ^ ediff : Nat) : Int) + rs' * r.signif) false
+
 def estCheck (args : List String) (s : String) : String :=
   let bad := args.any fun a => match parseF a with
     | some fa => !estSound fa.base (fa.repr).signif
@@ -343,6 +369,9 @@ def dispatchCore (asIs : Bool) : Dispatch := fun _W op args =>
     let s := ok (fbigStr r.1 ++ " " ++ flagStr r.2)
     pure (chkContract asIs B fa.mode p (q B x.repr) (representable B p x.repr) (r.1.repr, r.2) s)
   -- ---------------------------------------------------------------- C03
+  | "dbg.addbranch", [a, b, ps, rss] => do
+    let fa ← parseF a; let fb ← parseF b; let p ← parseDecNat ps; let rs ← parseDec rss
+    pure (ok (addBranchTag fa.base p fa.repr fb.repr rs))
   | "f.add", [a, b] => do let fa ← parseF a; let fb ← parseF b; binArith asIs false "add" fa fb (ctxMax fa.prec fb.prec)
   | "f.sub", [a, b] => do let fa ← parseF a; let fb ← parseF b; binArith asIs false "sub" fa fb (ctxMax fa.prec fb.prec)
   | "f.mul", [a, b] => do let fa ← parseF a; let fb ← parseF b; binArith asIs false "mul" fa fb (ctxMax fa.prec fb.prec)
